@@ -99,6 +99,13 @@ def gen_cases(ctx):
         add(n, [(i, j, cell_value(i, j, n)) for (i, j) in sq], False, "full-square")
         for dens in (0.3, 0.7):
             add(n, [(i, j, rng.randint(1, 99)) for (i, j) in sq if rng.random() < dens], False, "random-square")
+    # value-column variants on the structured / random families
+    kinds = ["int64", "float64", "int32", "field"]
+    for k, c in enumerate(cases):
+        if c["n"] >= 4:
+            c["vkind"] = kinds[k % 4]
+            if c["vkind"] == "float64":   # keep v/8 exactly representable and small
+                c["pixels"] = [[i, j, v % (2 ** 40)] for i, j, v in c["pixels"]]
     # assign chunk sizes: every case gets 'big' default + rotating others (thorough: all)
     for k, c in enumerate(cases):
         if thorough or c["n"] <= 3 and len(c["pixels"]) <= 3:
@@ -136,12 +143,30 @@ def _worker(arg):
     import cooler
     from cooler.api import matrix as api_matrix
     n = case["n"]
+    # value column variants: int64 / int32 counts, float64 counts (multiples of 1/8, compared after scaling by 8),
+    # or an extra value column "w" selected with field="w"
+    vkind = case.get("vkind", "int64")
+    fld = "w" if vkind == "field" else "count"
+    scale = 8 if vkind == "float64" else 1
     df = pd.DataFrame(case["pixels"], columns=["bin1_id", "bin2_id", "count"]).astype({"bin1_id": np.int64, "bin2_id": np.int64, "count": np.int64})
-    cooler.create_cooler(path, make_bins(n), df, symmetric_upper=case["symm"], dtypes={"count": np.int64})
+    kw = {}
+    if vkind == "float64":
+        df["count"] = df["count"].astype(np.float64) / 8.0
+        kw = dict(dtypes={"count": np.float64})
+    elif vkind == "int32":
+        kw = dict(dtypes={"count": np.int32})
+    elif vkind == "field":
+        df["w"] = df["count"]
+        df["count"] = 1
+        kw = dict(columns=["count", "w"], dtypes={"count": np.int32, "w": np.int64})
+    else:
+        kw = dict(dtypes={"count": np.int64})
+    cooler.create_cooler(path, make_bins(n), df, symmetric_upper=case["symm"], **kw)
+    fkw = {"field": fld} if vkind == "field" else {}
     with h5py.File(path, "r") as f:
         b1 = f["pixels/bin1_id"][:].tolist()
         b2 = f["pixels/bin2_id"][:].tolist()
-        cnt = f["pixels/count"][:].tolist()
+        cnt = [int(round(float(x) * scale)) if scale != 1 else int(x) for x in f["pixels/" + fld][:].tolist()]
         off = f["indexes/bin1_offset"][:].tolist()
     # independent reference: dense completion of the raw stored columns
     F = np.zeros((n, n), dtype=object)
@@ -157,17 +182,23 @@ def _worker(arg):
         wins = windows(n)
         for tag in case["chunks"]:
             cs = chunk_value(tag, len(b1))
-            sel_d = clr.matrix(balance=False, chunksize=cs)
-            sel_s = clr.matrix(balance=False, sparse=True, chunksize=cs)
-            sel_p = clr.matrix(balance=False, as_pixels=True, join=False, ignore_index=False, chunksize=cs)
+            sel_d = clr.matrix(balance=False, chunksize=cs, **fkw)
+            sel_s = clr.matrix(balance=False, sparse=True, chunksize=cs, **fkw)
+            sel_p = clr.matrix(balance=False, as_pixels=True, join=False, ignore_index=False, chunksize=cs, **fkw)
             out = []
             for (i0, i1, j0, j1) in wins:
                 exp = F[i0:i1, j0:j1]
                 try:
                     d = sel_d[i0:i1, j0:j1]
                     s = sel_s[i0:i1, j0:j1]
+                    if scale != 1:
+                        d = np.asarray(d) * scale
+                        if not np.all(d == np.round(d)):
+                            raise ValueError("non-dyadic value read back")
+                        d = np.round(d).astype(np.int64)
                     cd = ck_dense(d)
-                    srows, scols, svals = (s.row + i0).tolist(), (s.col + j0).tolist(), s.data.tolist()
+                    srows, scols = (s.row + i0).tolist(), (s.col + j0).tolist()
+                    svals = [int(round(float(x) * scale)) for x in s.data.tolist()] if scale != 1 else s.data.tolist()
                     cset, cn = ck_set(srows, scols, svals), len(svals)
                     ok = (d.shape == exp.shape and bool((d.astype(object) == exp).all()) and s.shape == exp.shape)
                     trip = sorted(zip(srows, scols, svals))
@@ -179,10 +210,13 @@ def _worker(arg):
                     d = repr(e)
                 try:
                     p = sel_p[i0:i1, j0:j1]
-                    got_p = list(zip(p.index.tolist(), p["bin1_id"].tolist(), p["bin2_id"].tolist(), p["count"].tolist()))
+                    pv = p[fld].tolist()
+                    if scale != 1:
+                        pv = [int(round(float(x) * scale)) for x in pv]
+                    got_p = list(zip(p.index.tolist(), p["bin1_id"].tolist(), p["bin2_id"].tolist(), pv))
                     cp = ck_ord(*zip(*got_p)) if got_p else 0
                     exp_p = [t for t in stored if i0 <= t[1] < i1 and j0 <= t[2] < j1]
-                    okp = got_p == exp_p and list(p.columns) == ["bin1_id", "bin2_id", "count"]
+                    okp = got_p == exp_p and list(p.columns) == ["bin1_id", "bin2_id", fld]
                 except Exception as e:
                     cp = -2
                     okp = False
@@ -195,7 +229,9 @@ def _worker(arg):
         # module-level function and fill_lower=False on a few windows (direct engine for dense output)
         for (i0, i1, j0, j1) in wins[:: max(1, len(wins) // 25)]:
             try:
-                a = api_matrix(fh, i0, i1, j0, j1, balance=False, fill_lower=False, chunksize=2)
+                a = api_matrix(fh, i0, i1, j0, j1, balance=False, fill_lower=False, chunksize=2, **fkw)
+                if scale != 1:
+                    a = np.round(np.asarray(a) * scale).astype(np.int64)
             except Exception as ex:
                 a = np.full((max(i1 - i0, 0), max(j1 - j0, 0)), -1)
                 if len(res["fails"]) < 5:
@@ -208,12 +244,26 @@ def _worker(arg):
             res["nq"] += 1
             if not bool((a.astype(object) == e).all()) and len(res["fails"]) < 5:
                 res["fails"].append({"window": [i0, i1, j0, j1], "chunk": "2", "fill_lower": False, "got_dense": a.tolist(), "expected_dense": e.tolist()})
+        # as_pixels with join=True: ids replaced by the coordinates of the pixel's own bins (oracle only)
+        bt = make_bins(n)
+        brow = [(str(bt["chrom"][k]), int(bt["start"][k]), int(bt["end"][k])) for k in range(n)]
+        for (i0, i1, j0, j1) in wins[:: max(1, len(wins) // 12)]:
+            try:
+                pj = clr.matrix(balance=False, as_pixels=True, join=True, chunksize=3, **fkw)[i0:i1, j0:j1]
+                gotj = [(str(r.chrom1), int(r.start1), int(r.end1), str(r.chrom2), int(r.start2), int(r.end2)) for r in pj.itertuples(index=False)]
+                expj = [brow[t[1]] + brow[t[2]] for t in stored if i0 <= t[1] < i1 and j0 <= t[2] < j1]
+                res["nq"] += 1
+                if gotj != expj and len(res["fails"]) < 5:
+                    res["fails"].append({"window": [i0, i1, j0, j1], "chunk": "3", "join": True, "got": gotj[:6], "expected": expj[:6]})
+            except Exception as ex:
+                if len(res["fails"]) < 5:
+                    res["fails"].append({"window": [i0, i1, j0, j1], "chunk": "3", "join": True, "error": repr(ex)})
     finally:
         fh.close()
     # store forms: path string and URI give the same full matrix
     try:
-        full = cooler.Cooler(path).matrix(balance=False)[:, :]
-        full2 = cooler.Cooler(path + "::/").matrix(balance=False)[:]
+        full = np.round(np.asarray(cooler.Cooler(path).matrix(balance=False, **fkw)[:, :]) * scale).astype(np.int64)
+        full2 = np.round(np.asarray(cooler.Cooler(path + "::/").matrix(balance=False, **fkw)[:]) * scale).astype(np.int64)
         if not ((full.astype(object) == F).all() and (full2.astype(object) == F).all()):
             res["fails"].append({"window": "[:, :] via path/URI store", "got_dense": full.tolist(), "expected_dense": F.tolist()})
     except Exception as e:
